@@ -492,7 +492,11 @@ func (p *Path) eval(fr *Frame, instr ssa.Value) Value {
 		case token.XOR:
 			return tc.BvNot(x.(*Term))
 		case token.ARROW:
-			return p.chanRecv(x, in.CommaOk, in.Type())
+			et := in.Type()
+			if ct, ok := in.X.Type().Underlying().(*types.Chan); ok {
+				et = ct.Elem()
+			}
+			return p.chanRecv(x, in.CommaOk, et)
 		}
 		p.unsupported("unop %s", in.Op)
 	case *ssa.Call:
